@@ -382,7 +382,42 @@ def run(tier, seed):
     for i in range(200 if tier == "quick" else 3000):
         n = rnd.choice([1, 7, 64, 513, 2000])
         add("bytes", "bytes", bytes(rnd.getrandbits(8) for _ in range(n)))
+    # every byte value inside the body of a macro with a parameter and inside a define (the stored text of a macro
+    # uses byte values of its own: markers, terminators)
+    for b in range(1, 256):
+        if b in (10, 13):
+            continue
+        add("limit", "macro_body_byte:%s" % ("control" if b < 32 else ("ascii" if b < 127 else "high")),
+            b".msp430\n.macro F(a)\n.db a, " + bytes([b, 0xff, 0x2c, 0x20, b, 0x35]) + b"\n.endm\nF(1)\n.define DV 1" + bytes([b]) + b"\n.db DV\n", to=20, rotate=False)
+    # operand counts: every instruction text of the comparison corpus with 1..9 operands (its own, cut off or its last one
+    # repeated), assembled in-process on the sanitizer build: whatever is wrong with the count must be a diagnostic
+    ocases = []
+    allcpus = {c["name"] for c in K.cpu_list(vdir)}
+    forms = [(cpu, t) for cpu, t in K.corpus(allcpus) + K.template_extra(allcpus) if ":" not in t and len(t.split(None, 1)) == 2]
+    if tier == "quick":
+        forms = rnd.sample(forms, min(len(forms), 2500))
+    for fi, (cpu, t) in enumerate(forms):
+        mn, rest = t.split(None, 1)
+        ops = [o.strip() for o in rest.split(",")]
+        lines = []
+        for n in range(1, 10):
+            if n != len(ops):
+                lines.append("  %s %s" % (mn, ", ".join((ops + [ops[-1]] * 9)[:n])))
+        for li, line in enumerate(lines):
+            ocases.append(("o%d.%d" % (fi, li), "imgmax=64", ".%s\n%s\n" % (cpu, line)))
+    oobs = C.conform_parallel(vdir, "asm", ocases, rd, "opcount", 10, nproc=C.NCPU)
+    osrc = {c[0]: c[2] for c in ocases}
     events = []
+    for o in oobs:
+        died = bool(o.get("died"))
+        if died:
+            why = "timeout" if o.get("timeout") else (o.get("san") or "signal %s" % o.get("sig"))
+            src = osrc[o["case"]]
+            cpu = src.split("\n")[0][1:]
+            chk.report("asm:operand count:%s:%s" % (cpu, site(why) if not o.get("timeout") else "timeout"),
+                       "the assembler died (%s) on\n%s" % (why[:200], src), dict(source=src, observed={k: v for k, v in o.items() if k != "img"}))
+        # (the in-process run has no exit status; a refusal counts as status 1 with its diagnostic)
+        events.append({"id": "op." + o["case"], "obs": {"died": died, "status": 0 if (o.get("r1") == 0 and o.get("r2") == 0) else 1, "diag": 1}})
     details = {}
     with ThreadPoolExecutor(C.NCPU) as ex:
         for cid, ob, san, out in ex.map(run_one, jobs):
@@ -406,6 +441,8 @@ def run(tier, seed):
     for vid, v in sorted(bad.items()):
         if vid in canaries:
             continue
+        if vid.startswith("op."):
+            continue            # reported above
         kind, key, src = meta[vid]
         san, out = details[vid]
         k = "asm:%s:%s" % (site(san) if v["why"].startswith("died") else v["why"], key if kind in ("limit", "extreme", "corrupt") else kind)
@@ -414,7 +451,7 @@ def run(tier, seed):
     for cid, (kind, key, src) in meta.items():
         kinds[kind] = kinds.get(kind, 0) + 1
     chk.cov.update(dict(
-        evaluations=len(jobs),
+        evaluations=len(jobs) + len(ocases), operand_count_cases=len(ocases),
         distinct_nontrivial=len({m[2] for m in meta.values()}),
         rule="TLC enumerates 30 bounded resources x lengths {1, cap/2, cap-1, cap, cap+1, cap+2, 2cap, 2cap+1, 16cap}; plus 44 extreme "
              "address/argument programs, the C12 corruption space, seeded token mutations of the repository samples and seeded byte "
